@@ -140,7 +140,8 @@ Proof.
   assert (Hbins : s_bins (scanon k a) = g_bins a) by (destruct k; reflexivity).
   assert (Hmin : s_min (scanon k a) = g_min a) by (destruct k; reflexivity).
   assert (Hmax : s_max (scanon k a) = g_max a) by (destruct k; reflexivity).
-  destruct o as [v | v | n | v | v]; unfold C18_Spectrum.sstep.
+  destruct o as [v | v | n | v | v | g]; unfold C18_Spectrum.sstep.
+  6:{ destruct g, (sk (scanon k a)); cbn [fst]; exists a; auto. }
   - rewrite Hmax. destruct (range_invalid v (g_max a)) eqn:E; cbn [fst]; [exists a; auto|].
     exists (mkSA v (g_max a) (g_bins a) (g_mean a) (g_std a)). split.
     + apply svalid_intro; assumption.
@@ -473,5 +474,42 @@ Proof. intros H Hj. destruct (sconstruct_inv _ _ _ H) as [Hv ->]. apply constant
 
 Theorem constant_power_sums_to_one_c a s : sconstruct SConst a = Some s -> Qsum (s_pow s) == 1.
 Proof. intros H. destruct (sconstruct_inv _ _ _ H) as [Hv ->]. apply constant_power_sums_to_one; assumption. Qed.
+
+(* ConstantSpectrum: the bin power is the bin width times the (constant) density, i.e. the integral of
+   the unit-power spectral density over the bin; outside [min, max] the density is 0 *)
+Theorem constant_bin_power_is_integral a s j x : sconstruct SConst a = Some s -> (j < Z.to_nat (g_bins a))%nat ->
+  (g_min a <= x -> x <= g_max a ->
+     nth j (s_pow s) 0 == ((g_min a + qn (S j) * s_delta s) - (g_min a + qn j * s_delta s)) * s_eval expo s x) /\
+  (x < g_min a \/ g_max a < x -> s_eval expo s x == 0).
+Proof.
+  intros H Hj. destruct (sconstruct_inv _ _ _ H) as [Hv ->].
+  destruct (constant_bin_power a j Hv Hj) as [V _]. cbv zeta in V.
+  destruct (fresh_facts SConst a Hv) as (H1 & H2 & _).
+  split.
+  - intros A B. rewrite V. unfold s_eval. change (sk (scanon SConst a)) with SConst. cbv iota.
+    change (s_min (scanon SConst a)) with (g_min a). change (s_max (scanon SConst a)) with (g_max a).
+    apply Qle_bool_iff in A. apply Qle_bool_iff in B. rewrite A, B. cbn [andb]. rewrite qn_S. ring.
+  - intros O. unfold s_eval. change (sk (scanon SConst a)) with SConst. cbv iota.
+    change (s_min (scanon SConst a)) with (g_min a). change (s_max (scanon SConst a)) with (g_max a).
+    destruct (Qle_bool (g_min a) x) eqn:A, (Qle_bool x (g_max a)) eqn:B; cbn [andb]; try reflexivity.
+    apply Qle_bool_iff in A. apply Qle_bool_iff in B. lra.
+Qed.
+
+(* invariants of every constructed (hence, by history independence, every reachable) spectrum *)
+Theorem spectrum_invariants k a s : sconstruct k a = Some s ->
+  0 < s_min s /\ s_min s < s_max s /\ (0 < s_bins s)%Z /\ 0 < s_delta s /\
+  length (s_wl s) = Z.to_nat (s_bins s) /\ length (s_psd s) = Z.to_nat (s_bins s) /\
+  length (s_pow s) = Z.to_nat (s_bins s) /\ sk s = k.
+Proof.
+  intros H. destruct (sconstruct_inv _ _ _ H) as [Hv ->].
+  destruct (fresh_facts k a Hv) as (H1 & H2 & H3 & H4 & H5). destruct (fresh_delta k a Hv) as [_ Hd].
+  destruct (svalid_parts k a Hv) as (_ & Hb & _).
+  destruct (fresh_centres k a Hv 0%nat H3) as [L1 _]. destruct (fresh_psd_nth k a Hv 0%nat H3) as [L2 _].
+  destruct (fresh_pow_nth k a Hv 0%nat H3) as [L3 _].
+  assert (B : s_bins (scanon k a) = g_bins a) by (destruct k; reflexivity).
+  assert (M : s_min (scanon k a) = g_min a) by (destruct k; reflexivity).
+  assert (X : s_max (scanon k a) = g_max a) by (destruct k; reflexivity).
+  rewrite B, M, X. repeat split; auto. apply scanon_sk.
+Qed.
 
 End Spectrum.
